@@ -512,8 +512,36 @@ Theorem C06_every_body_interpreted :
   filter (fun n => negb (mem_str n helpers)) C06gen.all_funcs = map c_name covered
   /\ forallb (fun h => mem_str h C06gen.all_funcs) helpers = true.
 Proof. exact every_body_interpreted. Qed.
-Example C06_ex_covered : length covered = 66%nat /\ length C06gen.all_funcs = 76%nat /\ Forall (fun c => c_stmt c) covered.
+Example C06_ex_covered : length covered = 67%nat /\ length C06gen.all_funcs = 77%nat /\ Forall (fun c => c_stmt c) covered.
 Proof. split; [reflexivity|split; [reflexivity|]]. apply Forall_forall. intros c _. exact (c_proof c). Qed.
+
+(* ---- phase 6: ALLOCATION (fixes 9fa2cc1, and the String / ByteArray / BitSet ones): the sizes the readers
+   allocate are TRANSLATED from the source (Gen/C06gen.v: packet_Ary_ReadFrom_first/more, packet_readBytes_first/more,
+   packet_BitSet_ReadFrom_first/more) and the skeleton / translated loops fix where they are used (first: once, before
+   the loop; more: only when every slot allocated so far has been read).  In every reachable state (a slots
+   allocated, r elements / bytes / words read), whatever count n the input declares: r <= a <= n, and
+   a <= maxPrealloc or a <= 2 r - nothing is allocated in proportion to a declared count the stream has not backed *)
+Theorem C06_ary_alloc_bounded : forall n, (0 <= n < 2 ^ 63)%Z ->
+  (forall a r, ary_reach n a r -> (0 <= r <= a /\ a <= n /\ (a <= Consts.packet_maxPreallocElems \/ a <= 2 * r))%Z)
+  /\ (forall a, ary_reach n a 0 -> (a <= 1024)%Z).
+Proof. intros n Hn. split; [apply ary_alloc_bounded, Hn|intros a; apply ary_alloc_before_first, Hn]. Qed.
+Theorem C06_bytes_bitset_alloc_bounded : forall n, (0 <= n < 2 ^ 63)%Z ->
+  (forall a r, grow_reach C06gen.packet_readBytes_first C06gen.packet_readBytes_more n a r ->
+     (0 <= r <= a /\ a <= n /\ (a <= Consts.packet_maxPreallocBytes \/ a <= 2 * r))%Z)
+  /\ (forall a r, grow_reach C06gen.packet_BitSet_ReadFrom_first C06gen.packet_BitSet_ReadFrom_more n a r ->
+     (0 <= r <= a /\ a <= n /\ (a <= Consts.packet_maxPreallocBytes / 8 \/ a <= 2 * r))%Z).
+Proof. intros n Hn. split; [apply bytes_alloc_bounded, Hn|apply bitset_alloc_bounded, Hn]. Qed.
+(* readBytes (the bounded-step reader behind String / ByteArray.ReadFrom, used by their translation as the effect
+   ReadFull n): its own body, interpreted, runs exactly like one ReadFull of n bytes *)
+Theorem C06_readbytes_is_skeleton : forall n s, (0 <= n < 2 ^ 62)%Z ->
+  run_flat (readBytes_interp (snd C06gen.skel_readBytes) 64 n) s = run_flat (ReadFull (Z.to_N n) (fun data => Ret data)) s.
+Proof. exact readBytes_is_ReadFull. Qed.
+Theorem C06_skeleton_readBytes : C06gen.skel_readBytes = expected_readBytes.
+Proof. exact skel_readBytes_ok. Qed.
+Example C06_ex_alloc :   (* 2^31-1 elements declared: 1024 slots before the first element, 2048 after 1024 have been read *)
+  ary_reach 2147483647 1024 0 /\ C06gen.packet_Ary_ReadFrom_more 2147483647 1024 = 1024%Z
+  /\ C06gen.packet_Ary_ReadFrom_more 1500 1024 = 476%Z.
+Proof. split; [exact (ar_first 2147483647)|split; reflexivity]. Qed.
 
 Print Assumptions C06_roundtrip.
 Print Assumptions C06_layout.
@@ -594,3 +622,7 @@ Print Assumptions C06_nbtfield_write_is_skeleton.
 Print Assumptions C06_opt_has_is_skeleton.
 Print Assumptions C06_constructors_are_skeleton.
 Print Assumptions C06_every_body_interpreted.
+Print Assumptions C06_ary_alloc_bounded.
+Print Assumptions C06_bytes_bitset_alloc_bounded.
+Print Assumptions C06_readbytes_is_skeleton.
+Print Assumptions C06_skeleton_readBytes.
